@@ -348,6 +348,7 @@ func (c *Ctx) finish() int {
 	cov["worker_requests"] = c.Pool.Requests
 	cov["worker_deaths"] = c.Pool.Deaths
 	cov["worker_timeouts"] = c.Pool.Timeouts
+	cov["worker_peak_resident_set_mib"] = c.Pool.PeakRSSMB
 	cov["worker_watchdog_cases_completed_on_retry"] = c.Pool.SlowRetries
 	if len(c.notes) > 0 {
 		cov["notes"] = c.notes
@@ -487,6 +488,17 @@ func (c *Ctx) runBatches(reqs []Req, chunk int, handle func(i int, req *Req, res
 		hi := lo + chunk
 		if hi > len(reqs) {
 			hi = len(reqs)
+		}
+		// a tree that already produced a hundred distinct violations of this property is decided:
+		// the remaining cases are not run (a broken tree can make every one of them slow)
+		c.mu.Lock()
+		enough := len(c.vioKeys) >= 100
+		if enough {
+			c.counters["cases_not_run_after_100_violations"] += int64(hi - lo)
+		}
+		c.mu.Unlock()
+		if enough {
+			return
 		}
 		sub := make([]Req, hi-lo)
 		copy(sub, reqs[lo:hi])
